@@ -168,6 +168,18 @@ DEFECTS = {
         _sp(['stdout UNDEF_TM'], phases=('assert',)),
         _sp(['exists f : UNDEF_FM'], phases=('assert',)),
         _sp(['stdout -transformed-by ( strip | UNDEF_TT ) is-empty'], phases=('assert',), tag='nested'),
+        # a definition that refers to the symbol it defines: the symbol is not defined at that point
+        _sp(['def string SELF_S = x@[SELF_S]@'], tag='self_reference'),
+        _sp(['def list SELF_L = a @[SELF_L]@ b'], tag='self_reference'),
+        _sp(['def path SELF_P = -rel SELF_P sub'], tag='self_reference'),
+        _sp(['def path SELF_P2 = @[SELF_P2]@/sub'], tag='self_reference'),
+        _sp(['def line-matcher SELF_LM = ! SELF_LM'], tag='self_reference'),
+        _sp(['def text-matcher SELF_TM = ( is-empty || SELF_TM )'], tag='self_reference'),
+        _sp(['def text-transformer SELF_TT = ( strip | SELF_TT )'], tag='self_reference'),
+        _sp(['def program SELF_PGM = @ SELF_PGM arg'], tag='self_reference'),
+        _sp(['def file-matcher SELF_FM = ( type file && SELF_FM )'], tag='self_reference'),
+        _sp(['def integer-matcher SELF_IM = ( == 1 || SELF_IM )'], tag='self_reference'),
+        _sp(['def string SELF_S3 = x@[SELF_S3]@', 'file self.txt = "@[SELF_S3]@"'], tag='self_reference'),
         _sp([A + ' @[UNDEF_S]@'], phases=('act',)),
         _sp(['@ UNDEF_PGM'], phases=('act',)),
         _sp(['$ echo @[UNDEF_S]@'], phases=('act',)),
